@@ -11,6 +11,7 @@
 #include <oneapi/tbb/flow_graph.h>
 #include "vtbb.h"
 #include "vfh.h"
+#include <memory>
 #include <map>
 #include <set>
 #include <string>
@@ -206,12 +207,32 @@ static void s_route(long c) { int kind = (int)(c % 3); c /= 3; int k = 1 + (int)
     vtbb::finish(); vf_outcome("route kind=%d k=%d P=%d", kind, k, P);
 }
 
+// broadcast_node with three successors that accept or reject in every pattern: 0 queue_node (accepts everything), 1 / 2 limiter_node(1 / 2) -> queue
+// (rejects once its threshold is reached and turns its edge round), 3 rejecting serial function_node (rejects while it is busy).  Every accepting
+// successor receives every message exactly once and in order whatever the others do; a limiter passes exactly its first messages.
+static void s_bcast(long c) { int kd[3]; for (int i = 0; i < 3; i++) { kd[i] = (int)(c % 4); c /= 4; } int P = 2 + (int)(c % 2); const int k = 4;
+    vtbb::init(P); std::vector<int> got[3];
+    { graph g; broadcast_node<int> b(g); std::vector<std::unique_ptr<queue_node<int>>> qs; std::vector<std::unique_ptr<limiter_node<int>>> ls; std::vector<std::unique_ptr<function_node<int, continue_msg, rejecting>>> fs;
+      for (int i = 0; i < 3; i++) {
+          if (kd[i] == 0) { qs.emplace_back(new queue_node<int>(g)); make_edge(b, *qs.back()); }
+          else if (kd[i] <= 2) { ls.emplace_back(new limiter_node<int>(g, (size_t)kd[i])); qs.emplace_back(new queue_node<int>(g)); make_edge(b, *ls.back()); make_edge(*ls.back(), *qs.back()); }
+          else { std::vector<int>* gv = &got[i]; fs.emplace_back(new function_node<int, continue_msg, rejecting>(g, serial, [gv](int v) { gv->push_back(v); pump(); return continue_msg(); })); make_edge(b, *fs.back()); } }
+      for (int m = 1; m <= k; m++) { if (!b.try_put(m)) vf_fail("broadcast_node rejected a message"); pump(); }
+      g.wait_for_all();
+      size_t qi = 0; for (int i = 0; i < 3; i++) { if (kd[i] == 3) continue; int v; while (qs[qi]->try_get(v)) got[i].push_back(v); qi++; } }
+    for (int i = 0; i < 3; i++) { std::string what = "successor " + std::to_string(i) + " of the broadcast_node (successor kinds " + std::to_string(kd[0]) + std::to_string(kd[1]) + std::to_string(kd[2]) + ": 0 queue, 1/2 limiter(1/2), 3 rejecting serial function_node)";
+        if (kd[i] == 0) { if ((int)got[i].size() != k) vf_fail("%s accepts everything but received %s", what.c_str(), S(got[i]).c_str()); for (int m = 1; m <= k; m++) if (got[i][m - 1] != m) vf_fail("%s received %s", what.c_str(), S(got[i]).c_str()); }
+        else if (kd[i] <= 2) { if ((int)got[i].size() != kd[i]) vf_fail("%s passed %s", what.c_str(), S(got[i]).c_str()); for (int m = 1; m <= kd[i]; m++) if (got[i][m - 1] != m) vf_fail("%s passed %s", what.c_str(), S(got[i]).c_str()); }
+        else { if (got[i].empty() || got[i][0] != 1) vf_fail("%s was idle but did not get message 1: %s", what.c_str(), S(got[i]).c_str()); for (size_t j = 1; j < got[i].size(); j++) if (got[i][j] <= got[i][j - 1]) vf_fail("%s received %s", what.c_str(), S(got[i]).c_str()); } }
+    vtbb::finish(); vf_outcome("bcast %d%d%d P=%d %s|%s|%s", kd[0], kd[1], kd[2], P, S(got[0]).c_str(), S(got[1]).c_str(), S(got[2]).c_str());
+}
+
 struct Block { const char* name; long count; void (*fn)(long); };
 static std::vector<Block> blocks; static const char* only = nullptr; static const char* skip = nullptr;
 static void scenario(long c) { for (auto& b : blocks) { if (c < b.count) { b.fn(c); return; } c -= b.count; } }
 int main(int argc, char** argv) {
     for (int i = 1; i + 1 < argc; i++) if (!strcmp(argv[i], "-p")) { if (!strncmp(argv[i + 1], "only=", 5)) only = argv[i + 1] + 5; if (!strncmp(argv[i + 1], "skip=", 5)) skip = argv[i + 1] + 5; if (!strncmp(argv[i + 1], "depth=", 6)) DEPTH = atoi(argv[i + 1] + 6); if (!strncmp(argv[i + 1], "prefills=", 9)) { PREFILLS.clear(); for (const char* q = argv[i + 1] + 9; *q;) { PREFILLS.push_back((int)strtol(q, (char**)&q, 10)); if (*q == '.') q++; } } }
-    Block all[] = {{"seq", 4 * (long)PREFILLS.size() * seq_count(DEPTH), s_seq}, {"seqr", 3 * 2 * 3 * 24, s_seqr}, {"join", 3 * 3 * 3 * 2 * 3 * 64, s_join}, {"limiter", 2 * 3 * 243, s_limiter}, {"limiterint", 2 * 4 * 2 * 3 * 1024, s_limiter_int}, {"ow", 2 * 2 * 1024, s_ow}, {"route", 3 * 3 * 2, s_route}};
+    Block all[] = {{"seq", 4 * (long)PREFILLS.size() * seq_count(DEPTH), s_seq}, {"seqr", 3 * 2 * 3 * 24, s_seqr}, {"join", 3 * 3 * 3 * 2 * 3 * 64, s_join}, {"limiter", 2 * 3 * 243, s_limiter}, {"limiterint", 2 * 4 * 2 * 3 * 1024, s_limiter_int}, {"ow", 2 * 2 * 1024, s_ow}, {"route", 3 * 3 * 2, s_route}, {"bcast", 64 * 2, s_bcast}};
     for (auto& b : all) if ((!only || !strcmp(only, b.name)) && (!skip || strcmp(skip, b.name))) blocks.push_back(b);
     long n = 0; for (auto& b : blocks) n += b.count; return vf_main_cases(argc, argv, n, scenario);
 }
